@@ -3,7 +3,7 @@ CONSTANTS
   Names = {"n1"}
   SizeSel = "huge"
   Limit = 70000
-  Single = FALSE
+  FName = "_dir.vpk"
   ArchIdx <- IdxAll
   NArch = 2
   Cs <- CsAll
